@@ -99,8 +99,14 @@ def model_pattern(star, comment_star, lstrip):
     return "(.*?)(?:" + "|".join([raw, var, com, blk]) + ")"
 
 
-def make_env(mod, templates, trim=False, lstrip=False, unedited=False):
-    """An Environment configured like nunavut/jinja/environment.py configures CodeGenEnvironment."""
+DEFAULT_OPTS = {"keep_trailing_newline": True, "newline_sequence": "\n", "line_statement_prefix": None, "line_comment_prefix": None}
+
+
+def make_env(mod, templates, trim=False, lstrip=False, unedited=False, opts=None):
+    """An Environment configured like nunavut/jinja/environment.py configures CodeGenEnvironment (`opts` varies the
+    settings Nunavut leaves fixed: keep_trailing_newline, newline_sequence, line statement / comment prefixes)."""
+    o = dict(DEFAULT_OPTS)
+    o.update(opts or {})
     bj, sj = modules()
     ext = ["jinja2.ext.do", "jinja2.ext.loopcontrols"] if mod is sj else ["nunavut.jinja.jinja2.ext.do", "nunavut.jinja.jinja2.ext.loopcontrols"]
     cls = mod.Environment
@@ -113,7 +119,9 @@ def make_env(mod, templates, trim=False, lstrip=False, unedited=False):
                     lx = self.__dict__["_c19_lexer"] = unedited_lexer(bj, self)
                 return lx
         cls = Unedited
-    return cls(loader=mod.DictLoader(templates), undefined=mod.StrictUndefined, keep_trailing_newline=True, trim_blocks=trim,
+    return cls(loader=mod.DictLoader(templates), undefined=mod.StrictUndefined, keep_trailing_newline=o["keep_trailing_newline"],
+               newline_sequence=o["newline_sequence"], line_statement_prefix=o["line_statement_prefix"],
+               line_comment_prefix=o["line_comment_prefix"], trim_blocks=trim,
                lstrip_blocks=lstrip, auto_reload=False, cache_size=400, extensions=ext,
                autoescape=mod.select_autoescape(enabled_extensions=("htm", "html", "xml", "json"), default_for_string=False, default=False))
 
@@ -121,10 +129,10 @@ def make_env(mod, templates, trim=False, lstrip=False, unedited=False):
 _ADDR = re.compile(r"0x[0-9a-f]{8,}", re.I)
 
 
-def render(mod, templates, main, context, trim=False, lstrip=False, unedited=False):
+def render(mod, templates, main, context, trim=False, lstrip=False, unedited=False, opts=None):
     """-> ('ok', text) | ('err', ExceptionClassName)"""
     def go():
-        env = make_env(mod, templates, trim, lstrip, unedited)
+        env = make_env(mod, templates, trim, lstrip, unedited, opts)
         return env.get_template(main).render(**copy.deepcopy(context))
     try:
         return ("ok", _ADDR.sub("0x?", guarded(go)))
@@ -352,7 +360,7 @@ def run(ctx: common.Ctx):
 
     # ---- corpus templates first (so that a replay of a rendering difference leads its defect class) ----------------
     for c in corpus["templates"]:
-        compare_template_set(ctx, bj, sj, c["templates"], c["main"], c.get("context", {}), c.get("trim_blocks", False), c.get("lstrip_blocks", False), "corpus")
+        compare_template_set(ctx, bj, sj, c["templates"], c["main"], c.get("context", {}), c.get("trim_blocks", False), c.get("lstrip_blocks", False), "corpus", c.get("environment_options"))
 
     # ---- tie 1: isSpace == Python \s on every code point ---------------------------------------------
     if drv is not None:
@@ -427,6 +435,9 @@ def run(ctx: common.Ctx):
         ctx.sample({"lexer_source": s, "root_steps": evs, "tag_state_consumed": tab})
     ctx.sample({"lineprefix": ["  ", "a\n\nb\r\n"], "do_lineprefix": do_lineprefix("a\n\nb\r\n", "  "), "property_reference": ref_prefix("  ", "a\n\nb\r\n")})
 
+    # ---- tie 2b: Lexer.tokeniter's source normalisation (keep_trailing_newline off/on) -------------------------
+    run_normalisation(ctx, drv, bj, sj)
+
     # ---- tie 3 + search (ii-a): lineprefix -----------------------------------------------------------------
     lp_alpha = ["a", " ", "\n", "\r", "\u2028", "\x0b"]
     lp_prefixes = ["", " ", "\t ", ">>"]
@@ -479,6 +490,56 @@ def run(ctx: common.Ctx):
 
     # ---- tie 6 + search (i): differential ------------------------------------------------------------------
     run_differential(ctx, bj, sj, corpus["templates"])
+
+
+# --------------------------------------------------------------------------------------------------
+def lexed_source(lexer, src, exc):
+    """what the rules of a lexer actually see: the concatenation of all token texts (None when lexing raises)"""
+    try:
+        return "".join(v for _l, _t, v in lexer.tokeniter(src, None))
+    except exc:
+        return None
+
+
+def run_normalisation(ctx, drv, bj, sj):
+    from nunavut.jinja.jinja2.lexer import Lexer
+    alpha = ["a", " ", "\n", "\r", "\x0c", "\u2028"]
+    maxlen = 6 if ctx.quick else 7
+    cases = []
+    for L in range(0, maxlen + 1):
+        for tup in itertools.product(alpha, repeat=L):
+            cases.append("".join(tup))
+    frags = LEX_FRAGS + ["\r", "\r\n", "\n\n", "\x85", "\x0b"]
+    for _ in range(3000 if ctx.quick else 40000):
+        body = "".join(ctx.rng.choice(frags) for _ in range(ctx.rng.randint(0, 12)))
+        cases.append(body + ctx.rng.choice(["", "\n", "\r\n", "\r"]) * ctx.rng.randint(0, 3))
+    exotic = re.compile("[\x0b\x0c\x1c\x1d\x1e\x85\u2028\u2029]")
+    for keep in (False, True):
+        o = {"keep_trailing_newline": keep}
+        blx = Lexer(make_env(bj, {}, opts=o))
+        slx = sj.lexer.Lexer(make_env(sj, {}, opts=o))
+        ans = drv.ask([f"norm {int(keep)} {enc(s)}" for s in cases], timeout=1500) if drv is not None else [None] * len(cases)
+        for s, a in zip(cases, ans):
+            real = lexed_source(blx, s, bj.TemplateSyntaxError)
+            ctx.case(("norm", keep, s), s.endswith(("\n", "\r")))
+            if real is None:
+                ctx.count("norm:lexer-error")
+                continue
+            if s.endswith(("\n\n", "\r\r", "\n\r", "\r\n\r\n")):
+                ctx.count("norm:two-or-more-final-breaks")
+            if a is not None:
+                ctx.traces += 1
+                if dec(a) != real:
+                    ctx.disagree("normalise-source", {"source": s, "keep_trailing_newline": keep}, dec(a), real)
+            # the property on the implementation: same text reaches the rules as in stock Jinja2 (common line breaks only)
+            # (pure data only: 3.x strips the whitespace in front of `{%-` outside the token stream)
+            if not exotic.search(s) and "{" not in s:
+                st = lexed_source(slx, s, sj.TemplateSyntaxError)
+                if st is not None and st != real:
+                    fail(ctx, {"kind": "source-normalisation-differs-from-stock"},
+                         "the bundled lexer normalises the line breaks of a template source differently from stock Jinja2",
+                         {"stream": "normalise", "source": s, "keep_trailing_newline": keep, "bundled_sees": real, "stock_sees": st})
+    ctx.extra["normalisation_domain"] = {"exhaustive_max_length": maxlen, "alphabet": "a space LF CR FF U+2028", "cases": len(cases), "keep_trailing_newline": [False, True]}
 
 
 # --------------------------------------------------------------------------------------------------
@@ -739,12 +800,16 @@ def run_extensions(ctx, drv, bj, sj, cge, qtpl):
 
 
 # --------------------------------------------------------------------------------------------------
-def compare_template_set(ctx, bj, sj, tpl, main, context, trim, lstrip, origin):
-    b = render(bj, tpl, main, context, trim, lstrip)
-    s = render(sj, tpl, main, context, trim, lstrip)
+def compare_template_set(ctx, bj, sj, tpl, main, context, trim, lstrip, origin, opts=None):
+    b = render(bj, tpl, main, context, trim, lstrip, opts=opts)
+    s = render(sj, tpl, main, context, trim, lstrip, opts=opts)
     has_marker = any(m in src for src in tpl.values() for m in MARKERS)
     nontrivial = any(("{%" in v or "{{" in v) for v in tpl.values())
-    ctx.case(("tpl", json.dumps(tpl, sort_keys=True), repr(sorted(context.items(), key=lambda kv: kv[0])), trim, lstrip), nontrivial)
+    ctx.case(("tpl", json.dumps(tpl, sort_keys=True), repr(sorted(context.items(), key=lambda kv: kv[0])), trim, lstrip, repr(opts)), nontrivial)
+    if opts:
+        for k_, v_ in opts.items():
+            if v_ != DEFAULT_OPTS[k_]:
+                ctx.count("diff:" + k_ + "=" + repr(v_))
     if b[0] == "ok" and s[0] == "ok":
         ctx.count("diff:both-render")
     elif b[0] == "err" and s[0] == "err":
@@ -755,14 +820,15 @@ def compare_template_set(ctx, bj, sj, tpl, main, context, trim, lstrip, origin):
         return b, s
     agree = (b == s) if b[0] == "ok" or s[0] == "ok" else True
     if not agree:
-        u = render(bj, tpl, main, context, trim, lstrip, unedited=True)
+        u = render(bj, tpl, main, context, trim, lstrip, unedited=True, opts=opts)
         caused_by_edit = (u != b) and not (u[0] == "err" and b[0] == "err")
         star_comment = any("{#*" in v for v in tpl.values())
         kind = "comment-star-loses-blanks" if (caused_by_edit and star_comment) else \
             "differs-from-stock-because-of-the-lexer-edit" if caused_by_edit else "differs-from-stock-not-because-of-the-lexer-edit"
         fail(ctx, {"kind": kind}, "a template without auto-indent marker renders differently in the bundled engine and in stock Jinja2",
                  {"stream": "differential", "origin": origin, "templates": tpl, "main": main, "context": {k: repr(v) for k, v in context.items()},
-                  "context_json": _jsonable(context), "trim_blocks": trim, "lstrip_blocks": lstrip, "bundled": b, "stock": s, "bundled_with_unedited_lexer": u})
+                  "context_json": _jsonable(context), "trim_blocks": trim, "lstrip_blocks": lstrip, "environment_options": opts or {}, "bundled": b, "stock": s,
+                  "bundled_with_unedited_lexer": u})
     return b, s
 
 
@@ -781,11 +847,18 @@ def run_differential(ctx, bj, sj, corpus_templates):
     feats = {}
     for (trim, lstrip), n in plan:
         g = G.Gen(rng, trim=trim, lstrip=lstrip)
+        gl = G.Gen(rng, trim=trim, lstrip=lstrip, line_prefixes=True)
         for _ in range(n):
-            tpl, main, context = g.template_set()
-            for f in g.features:
+            # the settings Nunavut fixes are varied too: the engine under check is the whole vendored lexer
+            opts = {"keep_trailing_newline": rng.random() < 0.55, "newline_sequence": rng.choice(["\n", "\n", "\n", "\r\n", "\r"])}
+            gen = g
+            if rng.random() < 0.12:
+                opts.update({"line_statement_prefix": "%%", "line_comment_prefix": "##"})
+                gen = gl
+            tpl, main, context = gen.template_set()
+            for f in gen.features:
                 feats[f] = feats.get(f, 0) + 1
-            compare_template_set(ctx, bj, sj, tpl, main, context, trim, lstrip, "grammar")
+            compare_template_set(ctx, bj, sj, tpl, main, context, trim, lstrip, "grammar", opts)
             if ctx.cases % 997 == 0:
                 ctx.sample({"templates": tpl, "main": main, "trim_blocks": trim, "lstrip_blocks": lstrip})
     # templates of the shipped kind: the `{#*` comment (a plain Jinja2 comment that begins with a star) in grammar-generated surroundings
@@ -811,11 +884,11 @@ def replay(ctx, path):
         context = rp.get("context_json")
         if context is None:
             context = {k: eval(v, {"Markup": bj.Markup}) for k, v in rp.get("context", {}).items()}  # noqa: S307 - our own repr()s
-        b = render(bj, rp["templates"], rp["main"], context, rp.get("trim_blocks", False), rp.get("lstrip_blocks", False))
+        b = render(bj, rp["templates"], rp["main"], context, rp.get("trim_blocks", False), rp.get("lstrip_blocks", False), opts=rp.get("environment_options"))
         if stream == "marker":
             print(json.dumps({"bundled": b, "expected": rp["expected"]}))
             return 0 if list(b) == list(rp["expected"]) else 1
-        s = render(sj, rp["templates"], rp["main"], context, rp.get("trim_blocks", False), rp.get("lstrip_blocks", False))
+        s = render(sj, rp["templates"], rp["main"], context, rp.get("trim_blocks", False), rp.get("lstrip_blocks", False), opts=rp.get("environment_options"))
         print(json.dumps({"bundled": b, "stock": s}))
         return 0 if b == s or (b[0] == "err" and s[0] == "err") else 1
     if stream == "lexer":
@@ -830,6 +903,13 @@ def replay(ctx, path):
         got = do_lineprefix(rp["s"], rp["prefix"])
         print(json.dumps({"got": got, "expected": ref_prefix(rp["prefix"], rp["s"])}))
         return 0 if got == ref_prefix(rp["prefix"], rp["s"]) else 1
+    if stream == "normalise":
+        from nunavut.jinja.jinja2.lexer import Lexer
+        o = {"keep_trailing_newline": rp["keep_trailing_newline"]}
+        a = lexed_source(Lexer(make_env(bj, {}, opts=o)), rp["source"], bj.TemplateSyntaxError)
+        b = lexed_source(sj.lexer.Lexer(make_env(sj, {}, opts=o)), rp["source"], sj.TemplateSyntaxError)
+        print(json.dumps({"bundled_sees": a, "stock_sees": b}))
+        return 0 if a == b else 1
     if stream == "lineprefix-nonstring":
         from nunavut.jinja.jinja2.filters import do_lineprefix
         val = eval(rp["value"], {"Markup": bj.Markup})  # noqa: S307 - our own repr()
